@@ -45,6 +45,17 @@ def generate_indexed(verif_seed, tier, index):
     case["departing"] = subs[rank] if rank < len(subs) else None
     case["event_delay"] = rng.choice([0.2, 0.5, 1.0])
     case["msg_delay"] = rng.choice([0.02, 0.05])
+    # a third of the scenarios have a second removal event (one agent), placed well after the
+    # first repair; whom it removes is decided once replication is done: an agent holding a
+    # replica of a computation orphaned by the first event (the likely new host), or any other
+    h2 = hashlib.sha256(f"{verif_seed}:C27:{tier}:inst{inst}:rank{rank}".encode()).digest()
+    rng2 = random.Random(int.from_bytes(h2[:8], "big"))
+    case["second"] = None
+    if case["departing"] is not None and len(agents) - len(case["departing"]) >= 3 \
+            and rng2.random() < 0.34:
+        case["second"] = {"rule": rng2.choice(["replica_holder", "replica_holder", "any"]),
+                          "pick": rng2.randrange(1 << 16),
+                          "delay": rng2.choice([30.0, 45.0, 60.0])}
     return case
 
 
@@ -60,6 +71,7 @@ class RepairWatch:
         self.pre_hosts = None
         self.departed = []
         self.dumps = []          # [(status, agent-side hosting, directory hosting, t)]
+        self.events = []         # one record per removal event (replicas/hosts just before it)
         self.final_directory = None
         self.expected_dumps = 1
         self.stopping = False
@@ -83,10 +95,21 @@ class RepairWatch:
             return d
 
         def scenario_event(mgt, msg, t):
-            w.pre_replicas = {c: sorted(mgt.discovery.replica_agents(c)) for c in w.originals}
-            w.pre_hosts = snapshot_dir(mgt)
-            w.departed += [a.args["agent"] for a in msg.content.actions
-                           if a.type == "remove_agent"]
+            leaving = [a.args["agent"] for a in msg.content.actions if a.type == "remove_agent"]
+            if not leaving:
+                return orig_evt(mgt, msg, t)
+            def replicas_of(c):
+                try:
+                    return sorted(mgt.discovery.replica_agents(c))
+                except Exception:
+                    return []
+            rec = {"replicas": {c: replicas_of(c) for c in w.originals},
+                   "hosts": snapshot_dir(mgt), "leaving": leaving, "t": w.sim.now,
+                   "dumps_before": len(w.dumps)}
+            w.events.append(rec)
+            if w.pre_hosts is None:
+                w.pre_replicas, w.pre_hosts = rec["replicas"], rec["hosts"]
+            w.departed += leaving
             return orig_evt(mgt, msg, t)
 
         def dump(mgt, status, duration):
@@ -96,7 +119,10 @@ class RepairWatch:
                     continue
                 live[name] = sorted(c.name for c in agent.computations()
                                     if c.name in w.originals)
-            w.dumps.append((status, live, snapshot_dir(mgt), w.sim.now))
+            later = {}
+            w.dumps.append((status, live, snapshot_dir(mgt), w.sim.now, later))
+            from ..threadsim import SimTimer
+            SimTimer(w.settle * 0.9, lambda: later.update(snapshot_dir(mgt))).start()
             res = orig_dump(mgt, status, duration)
             if len(w.dumps) >= w.expected_dumps and not w.stopping:
                 # the harness plays the operator: stop the run shortly after the last repair
@@ -161,7 +187,8 @@ def execute(case, tape):
     feats = dict(algo=case["algo"], k=k, n_departing=len(departing))
     built = build.Built(case)
     result = {}
-    with orch.runtime(tape, cfg, max_time=RUN_T * 2, max_steps=900000) as sim:
+    with orch.runtime(tape, cfg, max_time=RUN_T * (4 if case.get("second") else 2),
+                      max_steps=900000 * (2 if case.get("second") else 1)) as sim:
         sim.step_cost = 0.0005
         graph, mapping, foot = resilient.prepare(case, built)
         watch = RepairWatch(sim, [n.name for n in graph.nodes])
@@ -174,12 +201,26 @@ def execute(case, tape):
             orchestrator.start_replication(k)
             ready = orchestrator.wait_ready()
             result["ready"] = ready
-            scenario = Scenario([
+            events = [
                 DcopEvent("d1", delay=case["event_delay"]),
                 DcopEvent("e1", actions=[EventAction("remove_agent", agent=a) for a in departing]),
-            ])
+            ]
+            second = case.get("second")
+            if ready and second:
+                disc = orchestrator.mgt.discovery
+                owner0 = {c: a for a, cs in mapping.items() for c in cs}
+                rest = sorted(a for a in mapping if a not in departing)
+                holders = sorted({a for c in watch.originals if owner0[c] in departing
+                                  for a in disc.replica_agents(c) if a in rest})
+                pool = holders if (second["rule"] == "replica_holder" and holders) else rest
+                result["second_agent"] = pool[second["pick"] % len(pool)]
+                events += [DcopEvent("d2", delay=second["delay"]),
+                           DcopEvent("e2", actions=[EventAction(
+                               "remove_agent", agent=result["second_agent"])])]
+                watch.expected_dumps = 2
+            scenario = Scenario(events)
             if ready:
-                orchestrator.run(scenario, timeout=RUN_T)
+                orchestrator.run(scenario, timeout=RUN_T * (2 if second else 1))
             result["status"] = orchestrator.status
         except orch.threadsim.SimAbort as e:
             result["abort"] = str(e)
@@ -209,7 +250,7 @@ def execute(case, tape):
         out["violations"].append(common.violation(
             "repair_completes", f"removal of {departing} (orphans {orphaned}): run aborted "
             f"({result['abort']}) at virtual t={sim.now:.2f} before any repair outcome was "
-            f"reported" + crash, reason=result["abort"], **feats))
+            f"reported" + crash, reason=result["abort"], event=1, **feats))
         return out
     if "abort" in result:
         out["stats"]["aborted_after_repair_report"] += 1
@@ -221,60 +262,114 @@ def execute(case, tape):
     if not watch.dumps:
         out["violations"].append(common.violation(
             "repair_completes", f"removal of {departing} (orphans {orphaned}) was injected at "
-            f"but no repair outcome was reported within {RUN_T} virtual s" + crash, **feats))
+            f"but no repair outcome was reported within {RUN_T} virtual s" + crash, event=1,
+            **feats))
         return out
-    status, live, directory_then, t = watch.dumps[0]
-    directory = watch.final_directory or directory_then
-    problems = []
-    kinds = set()
     dead_agents = {a: e for a, e, _ in sim.fatal.errors}
-    for c in watch.originals:
-        hosts = [a for a, cs in live.items() if c in cs]
-        if len(hosts) != 1:
-            problems.append(f"{c} is hosted by {hosts} (live agents' computations)")
-            kinds.add("live_hosts_not_1")
-            continue
-        # the directory may lag behind the report (registrations travel as messages): it is
-        # wrong only if it disagrees both when the outcome is reported and one virtual second
-        # later (when the harness asks the orchestrator to stop)
-        seen = {directory_then.get(c), (watch.final_directory or directory_then).get(c)}
-        if hosts[0] not in seen:
-            if seen == {None}:
-                dead = hosts[0] in dead_agents
-                problems.append(f"{c} runs on {hosts[0]} but the directory has no host for it"
-                                + (f" ({hosts[0]}'s thread died: {dead_agents[hosts[0]]})" if dead else ""))
-                kinds.add("directory_missing_host_thread_died" if dead else "directory_missing")
-            else:
-                problems.append(f"{c} runs on {hosts[0]} but the directory says {sorted(map(str, seen))}")
-                kinds.add("directory_other")
-        if c in orphaned and hosts[0] not in watch.pre_replicas.get(c, []):
-            problems.append(f"{c} was re-hosted on {hosts[0]}, which held no replica "
-                            f"(replicas before the event: {watch.pre_replicas.get(c)})")
-            kinds.add("rehost_without_replica")
-        if c not in orphaned and hosts[0] != owner[c]:
-            problems.append(f"{c} moved from {owner[c]} to {hosts[0]} although its host stayed")
-            kinds.add("moved_without_reason")
-    if problems:
-        feats["problems"] = "+".join(sorted(kinds))
-        # an orphan none of whose replica holders survives the event (e.g. an isolated
-        # variable, which dist_ucs_hostingcosts cannot replicate at all)
-        feats["orphan_without_surviving_replica"] = any(
-            not (set(watch.pre_replicas.get(c, [])) - set(departing)) for c in orphaned)
-    out["stats"]["repairs_audited"] += 1
-    out["stats"]["repairs_with_orphans"] += 1 if orphaned else 0
-    out["stats"]["status_" + str(status)] += 1
-    if problems and status == "OK":
-        out["violations"].append(common.violation(
-            "ok_implies_hosted_once", f"departing {departing}, orphans {orphaned}: repair reported "
-            f"OK but " + "; ".join(problems[:4]), **feats))
-    elif problems:
-        out["violations"].append(common.violation(
-            "hosted_exactly_once", f"departing {departing}, orphans {orphaned}: repair reported "
-            f"{status}: " + "; ".join(problems[:4]), **feats))
-    elif status != "OK":
-        out["violations"].append(common.violation(
-            "ok_iff_hosted_once", f"everything is hosted exactly once but the repair was "
-            f"reported {status}", **feats))
+    gone = []
+    for ei, rec in enumerate(watch.events):
+        leaving = rec["leaving"]
+        gone += leaving
+        f = dict(feats, event=ei + 1, n_departing=len(leaving))
+        nxt = watch.events[ei + 1] if ei + 1 < len(watch.events) else None
+        if rec["dumps_before"] != ei or (nxt is not None and nxt["dumps_before"] <= ei):
+            # this repair had not been reported when the next event was injected (or the
+            # previous one when this event was): overlapping repairs are outside what the
+            # property describes, and the reports can no longer be attributed to an event
+            out["stats"]["event_overlapping_previous_repair"] += 1
+            break
+        if ei >= len(watch.dumps):
+            out["violations"].append(common.violation(
+                "repair_completes", f"event {ei + 1}: removal of {leaving} was injected at virtual "
+                f"t={rec['t']:.1f} but no repair outcome was reported by t={sim.now:.1f}" + crash,
+                **f))
+            break
+        status, live, directory_then, t, directory_later = watch.dumps[ei]
+        if ei + 1 == len(watch.events) and not directory_later:
+            directory_later = watch.final_directory or directory_then
+        # hosts just before the event: the deployment for the first event, what the previous
+        # repair left (agents' own view) afterwards
+        if ei == 0:
+            before = dict(owner)
+        else:
+            prev_live = watch.dumps[ei - 1][1]
+            before = {c: next((a for a, cs in prev_live.items() if c in cs), None)
+                      for c in watch.originals}
+        orph = [c for c in watch.originals if before.get(c) in leaving]
+        f["orphans"] = len(orph) > 0
+        if ei > 0:
+            bare = [c for c in orph if not (set(rec["replicas"].get(c, [])) - set(gone))]
+            if bare:
+                # the property speaks about a run *with replication level k*: a later event is
+                # audited only if every computation it orphans still has a replica on a
+                # surviving agent.  (Replicas lost with earlier departures, or never re-created
+                # for a computation re-hosted by the previous repair, are counted as probes:
+                # pyDcop re-replicates on a best-effort basis and the statement does not cover it.)
+                out["stats"]["later_event_without_replication_level"] += 1
+                out["stats"]["rehosted_orphan_had_no_new_replica"] += any(
+                    before[c] != owner[c] for c in bare)
+                break
+        problems, kinds = [], set()
+        for c in watch.originals:
+            if before.get(c) is None:
+                continue                      # already lost by an earlier event (reported there)
+            hosts = [a for a, cs in live.items() if c in cs and a not in gone]
+            if len(hosts) != 1:
+                problems.append(f"{c} is hosted by {hosts} (live agents' computations)")
+                kinds.add("live_hosts_not_1")
+                continue
+            # the directory may lag behind the report (registrations travel as messages): it is
+            # wrong only if it disagrees both when the outcome is reported and one virtual
+            # second later
+            seen = {directory_then.get(c), (directory_later or directory_then).get(c)}
+            if hosts[0] not in seen:
+                if seen == {None}:
+                    dead = hosts[0] in dead_agents
+                    problems.append(f"{c} runs on {hosts[0]} but the directory has no host for it"
+                                    + (f" ({hosts[0]}'s thread died: {dead_agents[hosts[0]]})"
+                                       if dead else ""))
+                    kinds.add("directory_missing_host_thread_died" if dead else "directory_missing")
+                else:
+                    problems.append(f"{c} runs on {hosts[0]} but the directory says "
+                                    f"{sorted(map(str, seen))}")
+                    kinds.add("directory_other")
+            if c in orph and hosts[0] not in rec["replicas"].get(c, []):
+                problems.append(f"{c} was re-hosted on {hosts[0]}, which held no replica "
+                                f"(replicas before the event: {rec['replicas'].get(c)})")
+                kinds.add("rehost_without_replica")
+            if c not in orph and hosts[0] != before[c]:
+                problems.append(f"{c} moved from {before[c]} to {hosts[0]} although its host stayed")
+                kinds.add("moved_without_reason")
+        if problems:
+            f["problems"] = "+".join(sorted(kinds))
+            # an orphan none of whose replica holders survives the event (e.g. an isolated
+            # variable, which dist_ucs_hostingcosts cannot replicate at all)
+            f["orphan_without_surviving_replica"] = any(
+                not (set(rec["replicas"].get(c, [])) - set(gone)) for c in orph)
+            # ... and whether such an orphan had been re-hosted by a previous repair (its
+            # replicas were to be re-established by the new host)
+            f["lost_replicas_after_rehosting"] = any(
+                not (set(rec["replicas"].get(c, [])) - set(gone)) and before[c] != owner[c]
+                for c in orph)
+        out["stats"]["repairs_audited"] += 1
+        out["stats"][f"repairs_audited_event{ei + 1}"] += 1
+        out["stats"]["repairs_with_orphans"] += 1 if orph else 0
+        out["stats"]["status_" + str(status)] += 1
+        head = f"event {ei + 1}: departing {leaving}, orphans {orph}: "
+        if problems and status == "OK":
+            out["violations"].append(common.violation(
+                "ok_implies_hosted_once", head + "repair reported OK but " + "; ".join(problems[:4]),
+                **f))
+        elif problems:
+            out["violations"].append(common.violation(
+                "hosted_exactly_once", head + f"repair reported {status}: " + "; ".join(problems[:4]),
+                **f))
+        elif status != "OK":
+            out["violations"].append(common.violation(
+                "ok_iff_hosted_once", head + f"everything is hosted exactly once but the repair was "
+                f"reported {status}", **f))
+        if problems:
+            break                              # later events start from a broken state
     out["nontrivial"] = bool(orphaned) and sim.stats["threads"] >= 4
     return out
 
